@@ -346,7 +346,11 @@ func memOracle(c MemCase, o *h.Obs) *h.Fail {
 			outs = bound.Call(p.params)
 		}
 		want := expectResult(outs)
-		if !same(reflect.ValueOf(got), want, false) {
+		anyLooseR := false
+		for _, l := range p.loose {
+			anyLooseR = anyLooseR || l
+		}
+		if !same(reflect.ValueOf(got), want, anyLooseR) {
 			return fail("call-result", detail, "%s\nscript received %s, Go's own call returns %s", head(src), desc(reflect.ValueOf(got)), desc(want))
 		}
 		// receiver state afterwards: through a pointer or on an addressable element the
@@ -355,7 +359,13 @@ func memOracle(c MemCase, o *h.Obs) *h.Fail {
 		if m.pointer || m.addr {
 			after = ref.Elem()
 		}
-		if !same(m.cur(), after, false) {
+		// a parameter that was rebuilt element-wise may end up in the receiver (SetD): nil and empty
+		// containers are then not distinguished, as for the parameter itself
+		anyLoose := false
+		for _, l := range p.loose {
+			anyLoose = anyLoose || l
+		}
+		if !same(m.cur(), after, anyLoose) {
 			return fail("call-receiver-state", detail, "%s\nGo-side receiver afterwards: %s\nreference: %s", head(src), desc(m.cur()), desc(after))
 		}
 		return nil
